@@ -181,7 +181,7 @@ def chk_generate1(ctx):
     R = Result('generate1')
     for n in ctx.get('gen_sizes', [2]):
         W = World(ctx['mod'], n); g = W.mk_grid('g', n=n)
-        gen = W.mk_generator('generator', g, [g['pts'][0]] + g['pts'][:n] + [g['pts'][n - 1]])
+        gen = W.mk_generator('generator', g, [g['pts'][0]] + g['pts'][:n] + [g['pts'][n - 1]], native=ctx.get('native'), concrete_knots=[0.0] + [float(k) for k in range(n)] + [float(n - 1)])
         mem = W.out('mem', 24)
         outs = explore(ctx, R, W, '@w_generate1', [bv(mem.base), bv(gen.base)], 'generate1/n%d' % n)
         W.vars['g_n'] = bv(n)
